@@ -149,13 +149,16 @@ def op_enabled(op):
     if kind == "acq":
         return not op[1]._locked
     if kind == "flock":
-        return op[1].compatible(op[3])
+        return op[1].compatible_fd(op[2], op[3])
     return True                     # rel, close
 
 
 class CoopLock:
     """Stand-in for threading.Lock (a non-reentrant binary lock)."""
     sched = None                    # set per run
+    private_for_workers = False     # CacheSystem: locks created by a worker are unreachable for other threads
+                                    # (fields of a RwLock object local to one call): their operations commute with
+                                    # everything and are not yield points (sound partial-order reduction)
 
     def __init__(self):
         self._locked = False
@@ -163,6 +166,7 @@ class CoopLock:
         w = CoopLock.sched.current() if CoopLock.sched else None
         self.creator = w.idx if w is not None else None
         self.acquired = 0
+        self.private = CoopLock.private_for_workers and w is not None
         if CoopLock.sched is not None:
             CoopLock.sched.locks.append(self)
         if w is not None:
@@ -185,7 +189,8 @@ class CoopLock:
             self.owner = None
             self.acquired += 1
             return True
-        sched.yield_point(("acq", self))
+        if not self.private:
+            sched.yield_point(("acq", self))
         if w.abort:
             raise Aborted()
         assert not self._locked
@@ -198,7 +203,8 @@ class CoopLock:
         sched = CoopLock.sched
         w = sched.current() if sched else None
         if w is not None:
-            sched.yield_point(("rel", self))
+            if not self.private:
+                sched.yield_point(("rel", self))
             if w.abort:
                 raise Aborted()
         if not self._locked:
@@ -230,16 +236,35 @@ def make_condition_class():
 
 
 class Kernel:
-    """flock state of ONE lock file: open file description -> 'r' | 'w'."""
+    """The kernel as far as flock is concerned: a directory (path -> inode) and the flock table keyed by the INODE an
+    open file description refers to.  open(path) binds to the path's current inode (a fresh one if there is none);
+    unlink(path) removes the directory entry, descriptions opened earlier keep their inode."""
 
     def __init__(self):
-        self.held = {}
+        self.paths = {}            # path -> inode, insertion order
+        self.path_key = {}         # path -> key number of the thread that first opened it (for observation)
+        self.next_ino = 0
         self.next_fd = 100
+        self.fd_ino = {}
+        self.fd_owner = {}
+        self.held = {}             # fd -> (inode, mode), insertion order
+        self.fileops = set()       # kinds of file operations seen on lock files
 
-    def compatible(self, mode):
+    def bind(self, path):
+        if path not in self.paths:
+            self.paths[path] = self.next_ino
+            self.next_ino += 1
+        return self.paths[path]
+
+    def compatible_fd(self, fd, mode):
+        ino = self.fd_ino[fd]
+        others = [m for f, (i, m) in self.held.items() if i == ino and f != fd]
         if mode == "w":
-            return not self.held
-        return all(m == "r" for m in self.held.values())
+            return not others
+        return all(m == "r" for m in others)
+
+    def modes(self):
+        return [m for (_, m) in self.held.values()]
 
 
 class FakeFcntl:
@@ -254,18 +279,26 @@ class FakeFcntl:
         sched = CoopLock.sched
         w = sched.current()
         mode = "w" if cmd == self.LOCK_EX else "r"
+        self.kernel.fileops.add("flock")
         sched.yield_point(("flock", self.kernel, fd, mode))
         if w is not None and w.abort:
             raise Aborted()
-        assert self.kernel.compatible(mode)
-        self.kernel.held[fd] = mode
+        assert self.kernel.compatible_fd(fd, mode)
+        self.kernel.held[fd] = (self.kernel.fd_ino[fd], mode)
 
 
 class FakeFile:
-    def __init__(self, kernel):
+    def __init__(self, kernel, path):
         self.kernel = kernel
+        self.path = path
         self.fd = kernel.next_fd
         kernel.next_fd += 1
+        w = CoopLock.sched.current() if CoopLock.sched else None
+        if w is not None and path not in kernel.path_key:
+            kernel.path_key[path] = w.key
+        kernel.fileops.add("open")
+        kernel.fd_ino[self.fd] = kernel.bind(path)
+        kernel.fd_owner[self.fd] = w.idx if w is not None else None
         self.closed = False
 
     def fileno(self):
@@ -274,6 +307,7 @@ class FakeFile:
     def close(self):
         sched = CoopLock.sched
         w = sched.current()
+        self.kernel.fileops.add("close")
         sched.yield_point(("close", self.kernel, self.fd))
         if w is not None and w.abort:
             raise Aborted()
@@ -285,6 +319,58 @@ class FakeFile:
 
     def __exit__(self, *a):
         self.close()
+
+
+class FakeOs:
+    """Stand-in for the `os` module in radicale.storage.multifilesystem.lock: everything is the real os except the
+    calls that would take a lock file away (remove / unlink / rename / replace), which act on the Kernel's directory
+    and are yield points."""
+
+    def __init__(self, kernel, real_os):
+        self._kernel = kernel
+        self._os = real_os
+
+    def __getattr__(self, name):
+        return getattr(self._os, name)
+
+    def _is_lock(self, path):
+        return path in self._kernel.paths or self._os.path.basename(str(path)).startswith(".Radicale.lock")
+
+    def _unlink(self, path, kind):
+        if not self._is_lock(path):
+            return getattr(self._os, kind)(path)
+        sched = CoopLock.sched
+        w = sched.current()
+        self._kernel.fileops.add(kind)
+        sched.yield_point(("unlink", self._kernel, path))
+        if w is not None and w.abort:
+            raise Aborted()
+        if path not in self._kernel.paths:
+            raise FileNotFoundError(path)
+        del self._kernel.paths[path]
+
+    def remove(self, path, **k):
+        return self._unlink(path, "remove")
+
+    def unlink(self, path, **k):
+        return self._unlink(path, "unlink")
+
+    def _rename(self, src, dst, kind):
+        if not (self._is_lock(src) or self._is_lock(dst)):
+            return getattr(self._os, kind)(src, dst)
+        sched = CoopLock.sched
+        self._kernel.fileops.add(kind)
+        sched.yield_point(("unlink", self._kernel, src))
+        ino = self._kernel.paths.pop(src, None)
+        if ino is None:
+            raise FileNotFoundError(src)
+        self._kernel.paths[dst] = ino
+
+    def rename(self, src, dst, **k):
+        return self._rename(src, dst, "rename")
+
+    def replace(self, src, dst, **k):
+        return self._rename(src, dst, "replace")
 
 
 class Patched:
@@ -305,18 +391,24 @@ class Patched:
         if self.kernel is not None:
             pathutils.fcntl = FakeFcntl(self.kernel)
             kernel = self.kernel
-            pathutils.open = lambda path, mode="r", *a, **k: FakeFile(kernel)
+            pathutils.open = lambda path, mode="r", *a, **k: FakeFile(kernel, path)
+            from radicale.storage.multifilesystem import lock as lock_mod
+            self.lock_mod = lock_mod
+            self.saved_os = lock_mod.os
+            lock_mod.os = FakeOs(kernel, lock_mod.os)
         return self
 
     def __exit__(self, *a):
         self.pathutils.threading, self.nolock.threading = self.saved[0], self.saved[1]
         if self.kernel is not None:
+            self.lock_mod.os = self.saved_os
             self.pathutils.fcntl = self.saved[2]
             if self.saved[3] is None:
                 self.pathutils.__dict__.pop("open", None)
             else:
                 self.pathutils.open = self.saved[3]
         CoopLock.sched = None
+        CoopLock.private_for_workers = False
 
 
 SEEN = {None: 0, "r": 1, "w": 2, "": 3}
@@ -485,7 +577,7 @@ class FileSystem:
 
     def observe(self):
         s = self.sched
-        held = list(self.kernel.held.values())
+        held = self.kernel.modes()
         out = [held.count("r"), held.count("w")]
         for lk in self.locks:
             out += [lk._lock.owner if lk._lock._locked else -1, lk._readers, 1 if lk._writer else 0]
@@ -681,7 +773,9 @@ def run_schedule(kind, progs, schedule, monitor=True, extend=False, choose=None)
         violation = v.what
     finally:
         sysm.close()
-    return dict(schedule=done_sched, trace=trace, enabled=enabled_sets, violation=violation)
+    kern = getattr(sysm, "kernel", None)
+    return dict(schedule=done_sched, trace=trace, enabled=enabled_sets, violation=violation,
+                fileops=sorted(kern.fileops) if kern is not None else [])
 
 
 def enumerate_schedules(kind, progs, limit=None, monitor=True):
@@ -790,3 +884,107 @@ class CompSystem:
 
 
 SYSTEMS["comp"] = CompSystem
+
+
+CACHE_KEYS = {5: ("/u/c/", ""), 7: ("/u/c/", "x"), 9: ("/u/d/", "")}
+
+
+class CacheSystem:
+    """The per-collection cache lock of the FILE-LOCK back-end: the real
+    radicale.storage.multifilesystem.Collection._acquire_cache_lock (CollectionPartLock) on a real
+    multifilesystem.Storage, with the stand-ins for open / fcntl.flock (pathutils) and os.remove/unlink/rename
+    (multifilesystem.lock) over a Kernel whose flock table is keyed by inode.
+    progs: per thread a list of key numbers (CACHE_KEYS: collection path, ns); storage_mode None = the storage lock is
+    not held by the caller, "r" = held in mode r (monitor only).  Model: coq/Model/FlockInode.v (unlinks = false)."""
+    kind = "cache"
+
+    def __init__(self, progs, storage_mode=None):
+        import logging
+        import tempfile
+        from radicale import config
+        logging.getLogger("radicale").setLevel(logging.CRITICAL)
+        if progs and isinstance(progs[0], str):            # ("r", [[5], [5]]) form: storage lock held in mode r
+            storage_mode, progs = progs
+        self.progs = progs
+        self.storage_mode = storage_mode
+        self.tmp = tempfile.mkdtemp(prefix="rv-c11cache-")
+        self.kernel = Kernel()
+        self.patch = Patched(self.kernel)
+        self.patch.__enter__()
+        self.sched = Scheduler()
+        CoopLock.sched = self.sched
+        from radicale.storage import multifilesystem
+        conf = config.load()
+        conf.update({"storage": {"type": "multifilesystem", "filesystem_folder": self.tmp, "_filesystem_fsync": "False"}},
+                    "c11", privileged=True)
+        self.storage = multifilesystem.Storage(conf)
+        self.Coll = multifilesystem.Collection
+        self.mutex = self.storage._lock._lock
+        CoopLock.private_for_workers = True
+        self.sched.start([self._body(p) for p in progs])
+
+    def close(self):
+        import shutil
+        self.sched.abort()
+        self.patch.__exit__()
+        shutil.rmtree(self.tmp, ignore_errors=True)
+
+    def _body(self, prog):
+        storage, sched, Coll, smode = self.storage, self.sched, self.Coll, self.storage_mode
+        import contextlib
+
+        def body(w):
+            for key in prog:
+                path, ns = CACHE_KEYS[key]
+                w.key = key
+                w.phase = "acquire"
+                coll = Coll(storage, path)
+                with (storage.acquire_lock(smode, "user") if smode else contextlib.nullcontext()):
+                    with coll._acquire_cache_lock(ns):
+                        w.phase = "cache"
+                        sched.yield_point(("nop",))
+                        w.phase = "release"
+                w.phase = "idle"
+        return body
+
+    def pc(self, w):
+        if w.done:
+            return 0
+        kind = w.pending[0]
+        if kind == "acq":
+            return 1
+        if kind == "rel":
+            return 2
+        return {"flock": 4, "nop": 5, "unlink": 6, "close": 7}[kind]
+
+    def observe(self):
+        k, s = self.kernel, self.sched
+        out = [self.mutex.owner if self.mutex._locked else -1]
+        for path in reversed(list(k.paths)):
+            out += [k.path_key.get(path) if k.path_key.get(path) is not None else 99, k.paths[path]]
+        out.append(-2)
+        for fd in reversed(list(k.held)):
+            out += [k.fd_owner[fd], k.held[fd][0]]
+        out.append(-3)
+        for w in s.workers:
+            out += [self.pc(w), 1 if s.enabled(w.idx) else 0]
+        return out
+
+    def monitor(self):
+        s = self.sched
+        for w in s.workers:
+            if w.error is not None:
+                raise Violation("thread %d raised %r" % (w.idx, w.error))
+        inside = collections.defaultdict(list)
+        for w in s.workers:
+            if w.phase == "cache":
+                inside[w.key].append(w.idx)
+        for key, ts in inside.items():
+            if len(ts) > 1:
+                raise Violation("threads %r are inside the cache section of key %r %r at the same time (file-lock back-end)" % (
+                    ts, key, CACHE_KEYS[key]))
+        if not s.all_done() and not any(s.enabled(i) for i in range(len(s.workers))):
+            raise Violation("deadlock: no thread can take a step, unfinished: %r" % [w.idx for w in s.workers if not w.done])
+
+
+SYSTEMS["cache"] = CacheSystem
